@@ -148,6 +148,17 @@ def build_record(spec):
             protos.append(ProtoclusterAnnotation(150, 210, "sideprod", TOOL, {}, 3, 3, circular_origin=wrap))
         if sideload == "origin-sub" and circular:
             subs.append(SubRegionAnnotation(204, 36, "over origin", TOOL, {}, circular_origin=wrap))
+        if sideload == "value-shapes":
+            # qualifier value shapes: long text with and without places to wrap it, characters that mean something in GenBank
+            # files, padding, an empty value
+            subs.append(SubRegionAnnotation(6, 141, "word " * 30, TOOL, {"quoted": ['say "hi"'], "slash": ["/note=fake"], "padded": [" padded "],
+                                                                          "empty": [""], "accent": ["caf\u00e9"], "number": ["1e5"]},
+                                            circular_origin=wrap))
+            protos.append(ProtoclusterAnnotation(150, 210, "sideprod", TOOL, {"two": ["two  spaces", "a=b"]}, 9, 12, circular_origin=wrap))
+        if sideload == "unbreakable-values":
+            # long values without a space to wrap at (a URL, a SMILES string, a sequence)
+            subs.append(SubRegionAnnotation(6, 141, "x" * 130, TOOL, {"url": ["http://example.org/" + "a" * 90], "list": [",".join(["abcdefghij"] * 12)]},
+                                            circular_origin=wrap))
         if sideload == "origin-subs" and circular:
             # a pre-origin, an origin-spanning and a post-origin subregion chained into one region, and one elsewhere
             subs.append(SubRegionAnnotation(150, 212, "before", TOOL, {}, circular_origin=wrap))
@@ -289,8 +300,11 @@ def specs(tier):
             if layout in CIRCULAR_ONLY and not circ:
                 continue
             for rules in (None, "single", "twins", "mixed", "separate", "spread"):
-                for sideload in (None, "sub", "proto", "both", "twin-sub", "two-subs", "origin-sub", "origin-subs"):
+                for sideload in (None, "sub", "proto", "both", "twin-sub", "two-subs", "origin-sub", "origin-subs", "value-shapes",
+                                 "unbreakable-values"):
                     if sideload in ("origin-sub", "origin-subs") and not circ:
+                        continue
+                    if sideload in ("value-shapes", "unbreakable-values") and (rules is not None or layout not in ("plain", "origin")):
                         continue
                     if rules is None and sideload is None:
                         continue
